@@ -31,6 +31,24 @@ pruning step that keeps an equivalent match, the reaction is among the results. 
 `SubPattern host pattern` of that theorem is evaluated by the Lean driver (`rinv.subpattern`,
 `rinv.id_in_monos`) on the graphs the implementation really builds (mapped reactant graph,
 `SynRule.left` after pattern preparation).
+
+Streams added for anchor coverage (every documented way of handing the reactor the same template and
+the same substrate must regenerate the reaction as well; the expected answer is the property's own
+predicate, never an output of the code):
+
+  entry      template as nx.Graph / nx.Graph with shuffled insertion order / `SynRule` object /
+             `SynRule.from_smart` / reaction string; substrate as SMILES / nx.Graph / nx.Graph with
+             foreign node ids in shuffled order / `SynGraph`; constructor `SynReactor(...)` or
+             `SynReactor.from_smiles(...)`; strategy as str / `Strategy` member.
+             Class `synrule_invert_folded_H` (decided from the input): template handed over as a
+             `SynRule`, invert=True, explicit-H mode, and the rule folds some hydrogen into a count.
+  options    `embed_pre_filter` / `embed_threshold` (documented guards that may empty the search):
+             every search call the reactor issues is re-run by the Lean model of the search
+             (`c06.search`, same host, pattern, strategy, threshold, pre-filter); where the model says
+             no guard cut any call the reaction must be regenerated, where a guard fired the run is
+             counted and not gated; the raw match set of every call must equal the model's.
+  tiny       hand-written degenerate reactions: nothing changes (empty reaction centre, empty
+             pattern), single atoms, ions, H2, two-atom reactions.
 """
 import json
 
@@ -75,6 +93,28 @@ THEOREMS = [
     "SynKit.ReactorInv.C04.own_template_regenerates_full_its_results_core",
     "SynKit.ReactorInv.C04.own_template_regenerates_centre_results_core",
 ]
+
+
+def _warm():
+    """Import the implementation OUTSIDE any per-case timer.  An alarm that interrupts the first import of a C
+    extension leaves the worker unable to import it again ('cannot load module more than once per process');
+    on a loaded machine that turned every later case of the worker into an ImportError."""
+    import rdkit.Chem  # noqa: F401
+    import synkit.Synthesis.Reactor.syn_reactor  # noqa: F401
+    import synkit.Chem.Reaction.standardize  # noqa: F401
+    import synkit.IO.chem_converter  # noqa: F401
+    import synkit.Rule  # noqa: F401
+    import synkit.Graph.syn_graph  # noqa: F401
+
+
+def apply_task_warm(task):
+    _warm()
+    return C.apply_task(task)
+
+
+def graph_task_warm(task):
+    _warm()
+    return C.graph_task(task)
 
 
 def precondition(info):
@@ -139,7 +179,7 @@ def run_items(ctx, pool, items, timeout, tag):
     for why, it, rs in selfcheck:
         ctx.count("harness_selfcheck_failed")
         ctx.violation("harness self-check: " + why, {"reaction": it["reaction"], "variant": it["variant"]}, {"rewritten": rs}, no_input=True)
-    results = pool.run(tasks)
+    results = pool.run(tasks, apply_task_warm)
     for t, m, r in zip(tasks, meta, results):
         it, info = m["item"], m["info"]
         m["target"] = r.get("target")
@@ -193,6 +233,370 @@ def run_items(ctx, pool, items, timeout, tag):
                 classes=cls)
 
 
+# ----------------------------------------------------------------------------- entry points / options / tiny reactions
+TEMPLATE_FORMS = ("graph", "graph_shuffled", "synrule", "from_smart", "str")   # the last two: full ITS only
+SUBSTRATE_FORMS = ("smiles", "nx", "nx_shuffled", "syngraph")
+STRATEGY_FORMS = ("str", "enum")           # the two documented ways of naming a strategy
+OPTION_THRESHOLDS = (None, None, 0, 1, 3, 50, 5000, 10 ** 6)
+MAX_OPTION_CALLS = 5          # search calls per run handed to the Lean model (first call + explicit-H re-matches)
+MAX_MODEL_MATCHES = 300       # a call with more raw matches (without options) is not sent to the model
+
+# hand-written degenerate reactions, all inside the precondition (checked by make_tasks' self-check)
+TINY = [
+    ("tiny:nochange-2atom", "[CH3:1][OH:2]>>[CH3:1][OH:2]"),
+    ("tiny:nochange-1atom", "[OH2:1]>>[OH2:1]"),
+    ("tiny:nochange-noble", "[He:1]>>[He:1]"),
+    ("tiny:nochange-2frag", "[CH3:1][OH:2].[OH2:3]>>[CH3:1][OH:2].[OH2:3]"),
+    ("tiny:nochange-ions", "[Na+:1].[Cl-:2]>>[Na+:1].[Cl-:2]"),
+    ("tiny:nochange-H2", "[H:1][H:2]>>[H:1][H:2]"),
+    ("tiny:nochange-H2-spectator", "[H:1][H:2].[OH2:3]>>[H:1][H:2].[OH2:3]"),
+    ("tiny:swap-maps", "[Cl:1][Cl:2]>>[Cl:2][Cl:1]"),
+    ("tiny:ionise", "[Na:1][Cl:2]>>[Na+:1].[Cl-:2]"),
+    ("tiny:proton-explicit", "[H+:1].[OH-:2]>>[H:1][OH:2]"),
+    ("tiny:proton-transfer-explicit", "[H:1][Cl:2].[NH3:3]>>[H:1][NH3+:3].[Cl-:2]"),
+    ("tiny:h2-addition-explicit", "[CH2:1]=[CH2:2].[H:3][H:4]>>[H:3][CH2:1][CH2:2][H:4]"),
+    ("tiny:substitution-explicit", "[CH3:1][Br:2].[H:3][NH2:4]>>[CH3:1][NH2:4].[H:3][Br:2]"),
+]
+
+
+def folded_h(rsmi, core):
+    """Decided from the template alone (RDKit tables): SynRule (implicit_h=True) folds some explicit
+    hydrogen of the template into its neighbour's count, i.e. a hydrogen atom has a heavy neighbour on
+    BOTH sides of the rule (`core`: only changed bonds belong to the template)."""
+    C._quiet()
+    rs, ps = rsmi.split(">>")
+    ra, rb, _, _ = C._side_table(rs)
+    pa, pb, _, _ = C._side_table(ps)
+    if core:
+        changed = {e for e in set(rb) | set(pb) if rb.get(e, 0) != pb.get(e, 0)}
+        rb = {e: o for e, o in rb.items() if e in changed}
+        pb = {e: o for e, o in pb.items() if e in changed}
+    el = {m: a[0] for m, a in ra.items()}
+
+    def heavy_nbr(bonds, h):
+        return any(el[v if u == h else u] != "H" for (u, v) in bonds if h in (u, v))
+
+    return any(el[h] == "H" and heavy_nbr(rb, h) and heavy_nbr(pb, h) for h in el)
+
+
+def entry_classes(rsmi, info, core, invert, entry):
+    cl = classes_of(rsmi, info, core, invert)
+    if (entry and entry.get("template") in ("synrule", "from_smart") and invert and info["mode"] == "explicit"
+            and folded_h(rsmi, core)):
+        # SynReactor._wrap_template inverts `tpl.rc.raw` (hydrogens already folded) and wraps it in a second
+        # SynRule, whose hydrogen stripping starts again from hcount = 0: the hydrogen change of the rule is lost
+        cl.append("synrule_invert_folded_H")
+    return cl
+
+
+def _enc_calls(calls, limit):
+    out = []
+    for res, host, pat, kw in calls[:limit]:
+        strat = kw.get("strategy")
+        out.append({"host": C._enc_graph(host), "pattern": C._enc_graph(pat),
+                    "strategy": getattr(strat, "value", strat), "threshold": kw.get("threshold"),
+                    "pre_filter": bool(kw.get("pre_filter", False)),
+                    "maps": sorted(sorted([int(a), int(b)] for a, b in m.items()) for m in res)})
+    return out
+
+
+def _entry_once(sr, std, task, substrate, options):
+    """One SynReactor run through the entry point described by task['entry'].  Every call of the documented
+    search entry point is recorded with its arguments."""
+    import networkx as nx
+    from synkit.IO.chem_converter import rsmi_to_its, smiles_to_graph
+    from synkit.Rule import SynRule
+    from synkit.Graph.syn_graph import SynGraph
+
+    e, mode, rs = task["entry"], task["mode"], task["template"]
+    seed = int(e.get("seed", 0))
+    tf = e.get("template", "graph")
+    if tf == "str":
+        tpl = rs
+    elif tf == "from_smart":
+        tpl = SynRule.from_smart(rs, implicit_h=(mode == "explicit"))
+    else:
+        g = rsmi_to_its(rs, core=task["core"])
+        if tf == "graph_shuffled":
+            g = C._relabelled_copy(g, {n: n for n in g.nodes()}, seed)
+        # what _wrap_template itself builds from a graph: implicit-H templates are wrapped with implicit_h=False
+        tpl = SynRule(g, implicit_h=(mode == "explicit")) if tf == "synrule" else g
+    sf = e.get("substrate", "smiles")
+    if sf == "smiles":
+        sub = substrate
+    else:
+        G = smiles_to_graph(substrate, use_index_as_atom_map=False, drop_non_aam=False)
+        if sf == "nx_shuffled":
+            G = C._relabelled_copy(G, C._random_injection(G.nodes(), seed + 5), seed + 6)
+        sub = SynGraph(G) if sf == "syngraph" else G
+    strat = task["strategy"]
+    strat = sr.Strategy(strat) if e.get("strategy_form", "str") == "enum" else strat
+    kwargs = dict(C._mode_kwargs(mode))
+    calls = []
+    orig = sr.SubgraphSearchEngine
+
+    class Recorder(orig):
+        @staticmethod
+        def find_subgraph_mappings(*a, **k):
+            r = orig.find_subgraph_mappings(*a, **k)
+            calls.append(([dict(m) for m in r], k.get("host", a[0] if a else None), k.get("pattern", a[1] if len(a) > 1 else None), dict(k)))
+            return r
+
+    if e.get("ctor") == "from_smiles":
+        reactor = sr.SynReactor.from_smiles(sub, tpl, invert=task["invert"], strategy=strat, **kwargs)
+    else:
+        reactor = sr.SynReactor(sub, tpl, invert=task["invert"], strategy=strat, **kwargs, **(options or {}))
+    sr.SubgraphSearchEngine = Recorder
+    try:
+        maps = reactor.mappings
+        smarts = list(reactor.smarts_list)
+    finally:
+        sr.SubgraphSearchEngine = orig
+    res = set()
+    for s in smarts:
+        try:
+            f = std.fit(s)
+        except Exception:  # noqa: BLE001
+            f = None
+        if f is not None:
+            res.add(f)
+    host_cc = pattern_cc = None
+    if calls and calls[0][1] is not None and calls[0][2] is not None:
+        host_cc = nx.number_connected_components(calls[0][1])
+        pattern_cc = nx.number_connected_components(calls[0][2])
+    return {"results": sorted(res), "n_map": len(maps), "n_raw": len(calls[0][0]) if calls else None, "n_smarts": len(smarts),
+            "host_cc": host_cc, "pattern_cc": pattern_cc, "n_calls": len(calls)}, calls
+
+
+def entry_task(task):
+    """Worker entry of the entry / options streams.  task: {key, template (mapped rsmi), core, invert, mode, strategy,
+    entry: {template, substrate, ctor, strategy_form, seed}, options: None | {embed_threshold, embed_pre_filter}, timeout}.
+    With options the same run is done first without them (only to bound the size of what is sent to the Lean model)."""
+    import signal
+    import time
+
+    _warm()
+    t0 = time.time()
+    C._ALARM["fired"] = False
+    out = {"key": task["key"], "status": "ok"}
+    try:
+        signal.setitimer(signal.ITIMER_REAL, float(task.get("timeout", 30)))
+        import synkit.Synthesis.Reactor.syn_reactor as sr
+        from synkit.Chem.Reaction.standardize import Standardize
+
+        std = Standardize()
+        try:
+            out["target"] = std.fit(task["template"])
+            substrate = out["target"].split(">>")[1 if task["invert"] else 0]
+        except C.CaseTimeout:
+            raise
+        except Exception:  # noqa: BLE001 - the normal form of the input itself is unavailable: not a case
+            out["status"] = "skip:no-normal-form"
+            return out
+        out["substrate"] = substrate
+        options = task.get("options")
+        if options:
+            _, calls0 = _entry_once(sr, std, task, substrate, None)
+            out["plain_calls"] = len(calls0)
+            out["plain_max_matches"] = max((len(c[0]) for c in calls0), default=0)
+            out["plain_max_pattern"] = max((c[2].number_of_nodes() for c in calls0 if c[2] is not None), default=0)
+        run, calls = _entry_once(sr, std, task, substrate, options)
+        out["run"] = run
+        if options:
+            out["calls"] = _enc_calls(calls, MAX_OPTION_CALLS + 1)
+    except C.CaseTimeout:
+        out["status"] = "timeout"
+    except Exception as e:  # noqa: BLE001 - an exception of the implementation is a result, not a crash
+        out["status"] = "error:" + type(e).__name__
+        out["error"] = str(e)[:300]
+    finally:
+        signal.setitimer(signal.ITIMER_REAL, 0)
+    if C._ALARM["fired"]:
+        out["status"] = "timeout"
+    out["wall"] = round(time.time() - t0, 3)
+    return out
+
+
+def _entry_label(e):
+    return f"{e.get('template', 'graph')}|{e.get('substrate', 'smiles')}|{e.get('ctor', 'init')}|{e.get('strategy_form', 'str')}"
+
+
+def run_entry_items(ctx, pool, items, timeout, tag):
+    """items: {rid, reaction, core, invert, strategy, entry, options}.  The gate is the one of `run_items`
+    (own reaction among the standardised results; documented comp guard not gated); with options the Lean model
+    of the search decides whether a documented guard (pre-filter, threshold) cut a search call."""
+    tasks, metas = [], []
+    for n, it in enumerate(items):
+        info = C.analyze_reaction(it["reaction"])
+        why = precondition(info)
+        if why is not None:
+            ctx.count("harness_selfcheck_failed")
+            ctx.violation("harness self-check: entry-stream reaction outside the precondition: " + why, {"reaction": it["reaction"]}, None, no_input=True)
+            continue
+        tasks.append({"key": f"{tag}{n}", "template": it["reaction"], "core": it["core"], "invert": it["invert"], "mode": info["mode"],
+                      "strategy": it["strategy"], "entry": it["entry"], "options": it.get("options"), "timeout": timeout})
+        metas.append({"item": it, "info": info})
+    results = pool.run(tasks, entry_task)
+    stream = "options" if tag.startswith("o") else "entry"
+    pending = []          # option runs waiting for the model
+    for t, m, r in zip(tasks, metas, results):
+        it, info = m["item"], m["info"]
+        ctx.count(f"{stream}_stream_status:" + r["status"].split(":")[0])
+        if r["status"] == "timeout" or r["status"].startswith("skip"):
+            continue
+        label = f"{'centre' if it['core'] else 'its'}/{'bw' if it['invert'] else 'fw'}"
+        cls = entry_classes(it["reaction"], info, it["core"], it["invert"], it["entry"])
+        case = {"reaction": it["reaction"], "variant": {"kind": "identity"}, "core": it["core"], "invert": it["invert"],
+                "strategy": it["strategy"], "entry": it["entry"]}
+        if it.get("options"):
+            case["options"] = it["options"]
+        for k in ("template", "substrate", "ctor", "strategy_form"):
+            ctx.count(f"{stream}:{k}={it['entry'].get(k)}")
+        ctx.count(f"{stream}:mode={info['mode']}")
+        ctx.count(f"{stream}:{label}/{it['strategy']}")
+        if it.get("options"):
+            ctx.count(f"options:embed_threshold={it['options'].get('embed_threshold')}")
+            ctx.count(f"options:embed_pre_filter={it['options'].get('embed_pre_filter')}")
+        detail = {"rid": it.get("rid"), "template": label, "mode": info["mode"], "substrate": r.get("substrate"), "expected": r.get("target")}
+        if r["status"] != "ok":
+            ctx.count(f"{stream}_impl_exception:" + r["status"][6:])
+            ctx.case(case, True)
+            ctx.violation("own template does not regenerate the reaction (rule application raised " + r["status"][6:] + "; entry "
+                          + _entry_label(it["entry"]) + ")", case, dict(detail, error=r.get("error")), classes=cls)
+            continue
+        run = r["run"]
+        hit = r["target"] in run["results"]
+        detail.update(raw_matches=run["n_raw"], kept_matches=run["n_map"], n_results=len(run["results"]), results=run["results"][:5])
+        if it.get("options"):
+            pending.append((t, it, info, r, case, cls, detail, label, hit))
+            continue
+        if (it["strategy"] == "comp" and not hit and run["host_cc"] is not None and run["host_cc"] > run["pattern_cc"] and run["n_raw"] == 0):
+            ctx.count(f"comp_strict_cc_guard_not_gated:{label}")
+            continue
+        ctx.count(f"entry:{label}/{info['mode']}:" + ("regenerated" if hit else "MISS"))
+        ctx.case(case, nontrivial=run["n_raw"] is not None and run["n_raw"] >= 1,
+                 sample={"stream": "entry", "rid": it.get("rid"), "template": label, "strategy": it["strategy"], "mode": info["mode"],
+                         "entry": _entry_label(it["entry"]), "raw_matches": run["n_raw"], "kept": run["n_map"], "regenerated": hit})
+        if not hit:
+            for c in cls:
+                ctx.count("miss_class:" + c)
+            ctx.violation("own template does not regenerate the reaction (entry " + _entry_label(it["entry"]) + ")", case, detail, classes=cls)
+    if pending:
+        _gate_options(ctx, pending)
+
+
+def _gate_options(ctx, pending):
+    reqs, owners = [], []
+    for p in pending:
+        t, it, info, r, case, cls, detail, label, hit = p
+        calls = r.get("calls", [])
+        if (len(calls) > MAX_OPTION_CALLS or r.get("plain_calls", 0) > MAX_OPTION_CALLS or r.get("plain_max_matches", 0) > MAX_MODEL_MATCHES
+                or r.get("plain_max_pattern", 0) > 45):
+            ctx.count("options_skipped_large")
+            continue
+        for i, c in enumerate(calls):
+            # the configuration the call must have by the reactor's options (strategy and embed_threshold reach every
+            # search call, embed_pre_filter the first one; what the re-matching calls do with the pre-filter is not
+            # documented: there the recorded argument is taken)
+            reqs.append({"cmd": "c06.search", "host": c["host"], "pattern": c["pattern"], "node_keys": C.MATCH_NODE_KEYS,
+                         "edge_keys": C.MATCH_EDGE_KEYS,
+                         "cfgs": [{"strategy": it["strategy"], "max_results": None, "strict": True,
+                                   "threshold": it["options"].get("embed_threshold"),
+                                   "pre_filter": bool(it["options"].get("embed_pre_filter")) if i == 0 else c["pre_filter"]}]})
+        owners.append((p, len(calls)))
+    answers = ctx.lean().ok(reqs, shards=8) if reqs else []
+    pos, bad = 0, 0
+    for p, k in owners:
+        t, it, info, r, case, cls, detail, label, hit = p
+        ans = answers[pos: pos + k]
+        pos += k
+        calls = r["calls"]
+        run = r["run"]
+        fired = False
+        diverged = None
+        for i, (c, a) in enumerate(zip(calls, ans)):
+            mod = a["runs"][0]
+            if mod["result"] != mod["unlimited"]:
+                fired = True
+            if mod["prefilter"] and c["pre_filter"]:
+                ctx.count("options:model_prefilter_gave_up")
+            if c["maps"] != mod["result"] and diverged is None:
+                diverged = (i, c, mod)
+        first = ans[0]["runs"][0] if ans else None
+        strict_guard = (it["strategy"] == "comp" and first is not None and ans[0]["hcc"] > ans[0]["pcc"] and first["n"] == 0)
+        ctx.count("options:" + ("a documented guard cut a search call (not gated)" if fired else "no guard fired (gated)"))
+        ctx.case(case, nontrivial=bool(first and first["n"] >= 1),
+                 sample={"stream": "options", "rid": it.get("rid"), "template": label, "strategy": it["strategy"], "mode": info["mode"],
+                         "options": it["options"], "guard_fired": fired, "raw_matches": run["n_raw"], "regenerated": hit})
+        miss_gated = (not fired) and (not strict_guard) and (not hit)
+        if strict_guard and not hit:
+            ctx.count(f"comp_strict_cc_guard_not_gated:{label}")
+        if not fired and not strict_guard:
+            ctx.count(f"options:{label}/{info['mode']}:" + ("regenerated" if hit else "MISS"))
+        if miss_gated:
+            bad += 0 if cls else 1
+            for c in cls:
+                ctx.count("miss_class:" + c)
+            ctx.violation("own template does not regenerate the reaction although, by the model of the search, neither the pre-filter "
+                          "nor the threshold cut any search call", case, dict(detail, options=it["options"]), classes=cls)
+        if diverged is not None:
+            i, c, mod = diverged
+            bad += 1
+            ctx.violation(f"search call {i} of the reactor (options {it['options']}) returned a match set that differs from the model of the search",
+                          case, {"call": i, "strategy": c["strategy"], "threshold": c["threshold"], "pre_filter": c["pre_filter"],
+                                 "impl_n": len(c["maps"]), "model_n": mod["n"], "model_prefilter_gives_up": mod["prefilter"],
+                                 "impl_only": [x for x in c["maps"] if x not in mod["result"]][:2],
+                                 "model_only": [x for x in mod["result"] if x not in c["maps"]][:2]},
+                          no_input=not miss_gated)
+    ctx.obligation("options stream: every search call of the reactor under embed_pre_filter / embed_threshold equals the Lean model of the "
+                   "search; where no guard fired the own reaction is regenerated (outside known classes)", bad == 0)
+
+
+def _pick_forms(rnd, core, k):
+    """k-th combination of a round-robin over the forms (so that every form occurs in every run), details from rnd."""
+    tforms = TEMPLATE_FORMS[:3] if core else TEMPLATE_FORMS
+    entry = {"template": tforms[k % len(tforms)], "substrate": SUBSTRATE_FORMS[(k // 2) % len(SUBSTRATE_FORMS)],
+             "ctor": "init", "strategy_form": STRATEGY_FORMS[k % len(STRATEGY_FORMS)], "seed": rnd.randrange(1, 2 ** 30)}
+    if entry["substrate"] == "smiles" and rnd.random() < 0.6:
+        entry["ctor"] = "from_smiles"
+    return entry
+
+
+def entry_stream(ctx, pool, chosen, infos, n, timeout):
+    small = sorted((x for x in chosen if infos[x[0]]["n_atoms"] <= 30), key=lambda x: x[0])
+    picked = small if len(small) <= n else ctx.rnd.sample(small, n)
+    items, k, flagged = [], ctx.rnd.randrange(60), 0
+    for rid, rs in picked:
+        for core in (True, False):
+            for invert in (False, True):
+                entry = _pick_forms(ctx.rnd, core, k)
+                k += 1
+                if "synrule_invert_folded_H" in entry_classes(rs, infos[rid], core, invert, entry):
+                    # the finding class: two instances per run are enough, the others take the next template form
+                    flagged += 1
+                    if flagged > 2:
+                        entry["template"] = "graph_shuffled"
+                items.append({"rid": rid, "reaction": rs, "core": core, "invert": invert, "strategy": ctx.rnd.choice(C.STRATEGIES), "entry": entry})
+    run_entry_items(ctx, pool, items, timeout, "e")
+    ctx.count("entry_stream_items", len(items))
+
+
+def option_stream(ctx, pool, chosen, infos, n, timeout):
+    small = sorted((x for x in chosen if infos[x[0]]["n_atoms"] <= 26), key=lambda x: x[0])
+    picked = small if len(small) <= n else ctx.rnd.sample(small, n)
+    items = []
+    for rid, rs in picked:
+        for core in (True, False):
+            for invert in (False, True):
+                thr = ctx.rnd.choice(OPTION_THRESHOLDS)
+                pf = ctx.rnd.random() < 0.7 or thr is None
+                items.append({"rid": rid, "reaction": rs, "core": core, "invert": invert, "strategy": ctx.rnd.choice(C.STRATEGIES),
+                              "entry": {"template": "graph", "substrate": "smiles", "ctor": "init", "strategy_form": "str", "seed": 0},
+                              "options": {"embed_threshold": thr, "embed_pre_filter": pf}})
+    run_entry_items(ctx, pool, items, timeout, "o")
+    ctx.count("option_stream_items", len(items))
+
+
 def load_regress():
     d = ROOT / "regress" / "C04"
     out = []
@@ -200,7 +604,33 @@ def load_regress():
         for f in sorted(d.glob("*.json")):
             c = json.loads(f.read_text())
             c = c.get("case", c)
+            if is_entry_case(c):
+                continue
             out.append(item_of_case(c, "regress:" + f.stem))
+    return out
+
+
+def is_entry_case(c):
+    return "entry" in c or "options" in c
+
+
+def entry_item_of_case(c, rid):
+    rs = variant_of(c["reaction"], c.get("variant", {"kind": "identity"}))
+    return {"rid": rid, "reaction": rs, "core": bool(c.get("core", True)), "invert": bool(c.get("invert", False)),
+            "strategy": c.get("strategy") if c.get("strategy") in C.STRATEGIES else "all",
+            "entry": dict({"template": "graph", "substrate": "smiles", "ctor": "init", "strategy_form": "str", "seed": 0}, **c.get("entry", {})),
+            "options": c.get("options")}
+
+
+def load_regress_entry():
+    d = ROOT / "regress" / "C04"
+    out = []
+    if d.exists():
+        for f in sorted(d.glob("*.json")):
+            c = json.loads(f.read_text())
+            c = c.get("case", c)
+            if is_entry_case(c):
+                out.append(entry_item_of_case(c, "regress:" + f.stem))
     return out
 
 
@@ -227,6 +657,12 @@ def run(ctx):
         "templates are built by rsmi_to_its(rsmi, core=...) from the mapped reaction; substrates are the unmapped sides of Standardize.fit(rsmi)",
         "reactor mode fixed by DESIGN 5a: centre hydrogens explicit -> defaults; none explicit -> implicit_temp=True, explicit_h=False",
         "balanced = same atom maps and elements on both sides, equal total hydrogen count and total charge",
+        "entry stream: a template handed over as a SynRule is built the way SynReactor builds it from a graph "
+        "(SynRule(its) for explicit centre hydrogens, SynRule(its, implicit_h=False) otherwise); a graph substrate is "
+        "smiles_to_graph(unmapped side, use_index_as_atom_map=False, drop_non_aam=False), optionally re-inserted in shuffled order under foreign node ids",
+        "options stream: embed_pre_filter / embed_threshold are documented guards that may empty a search; whether one did is decided by the "
+        "Lean model of the search (c06.search: quickPreFilter, threshold rule) on the arguments of every search call the reactor issued; "
+        "runs where a guard fired are counted, not gated",
     ]
     quick = ctx.quick
     timeout = 8.0 if quick else 90.0
@@ -253,7 +689,13 @@ def run(ctx):
         "regress/C04 first; then corpus/c04_reactions.txt (ecoli 274, USPTO 100, hydro 50, 6 hand-written small-ring rearrangements; vendored) restricted to the precondition "
         f"({len(inside)} reactions); {'a ctx.rnd sample of 70 with <=40 atoms' if quick else 'all of them'} x variants {kinds} "
         "(random atom-map permutation; random SMILES atom order + fragment shuffle) x template {centre, full ITS} x {forward, backward} "
-        f"x strategy {{all, comp, bt}}; per-run time-out {timeout}s (skipped, counted, never reported).")
+        f"x strategy {{all, comp, bt}}; per-run time-out {timeout}s (skipped, counted, never reported).  "
+        f"tiny: {len(TINY)} hand-written degenerate reactions (no change / single atom / ions / H2 / two atoms) x {{identity, renumber, rewrite}} x the same grid.  "
+        f"entry: {16 if quick else 80} of the chosen reactions with <=30 atoms x template x direction, one strategy from ctx.rnd each, entry point "
+        f"round-robin over template form {list(TEMPLATE_FORMS)} (the last two for the full ITS only), substrate form {list(SUBSTRATE_FORMS)}, "
+        f"strategy form {list(STRATEGY_FORMS)}, SynReactor.from_smiles for 60% of the SMILES substrates.  "
+        f"options: {10 if quick else 50} of the chosen reactions with <=26 atoms x template x direction, one strategy from ctx.rnd, "
+        f"embed_threshold from {list(OPTION_THRESHOLDS)}, embed_pre_filter True with probability 0.7 (always when the threshold is None).")
     ctx.nontrivial_rule = "distinct (reaction, variant, template, direction, strategy) where the search returned >=1 raw match"
     build_and_audit(ctx, ["SynKitProofs.Props.C04"], "SynKitProofs/Audit/C04.lean", THEOREMS)
 
@@ -266,8 +708,19 @@ def run(ctx):
         reg = load_regress()
         run_items(ctx, pool, reg, max(timeout, 60.0), "r")
         ctx.count("regress_cases", len(reg))
+        reg_e = load_regress_entry()
+        run_entry_items(ctx, pool, [x for x in reg_e if not x.get("options")], max(timeout, 60.0), "er")
+        run_entry_items(ctx, pool, [x for x in reg_e if x.get("options")], max(timeout, 60.0), "or")
+        ctx.count("regress_cases", len(reg_e))
         run_items(ctx, pool, items, timeout, "c")
         subpattern_stream(ctx, pool, chosen, infos, 25 if quick else 120)
+        # streams added for anchor coverage; drawn after the streams above, so those keep their population per seed
+        tiny = [{"rid": rid, "reaction": rs, "variant": {"kind": kind, "seed": ctx.rnd.randrange(1, 2**30)}}
+                for rid, rs in TINY for kind in ("identity", "renumber", "rewrite")]
+        run_items(ctx, pool, tiny, timeout, "t")
+        ctx.count("tiny_stream_items", len(tiny))
+        entry_stream(ctx, pool, chosen, infos, 16 if quick else 80, timeout)
+        option_stream(ctx, pool, chosen, infos, 10 if quick else 50, timeout)
     finally:
         pool.close()
     unknown = [v for v in ctx.violations if not v["classes"]]
@@ -288,7 +741,7 @@ def subpattern_stream(ctx, pool, chosen, infos, n):
             for invert in (False, True):
                 tasks.append({"key": f"{rid}|{int(core)}|{int(invert)}", "template": rs, "core": core, "invert": invert,
                               "mode": infos[rid]["mode"], "host": "own", "relabel": False, "timeout": 20.0})
-    results = pool.run(tasks, C.graph_task)
+    results = pool.run(tasks, graph_task_warm)
     sel = {"node_keys": C.MATCH_NODE_KEYS, "edge_keys": C.MATCH_EDGE_KEYS}
     reqs, owners = [], []
     for t, r in zip(tasks, results):
@@ -334,6 +787,9 @@ def replay(ctx, case):
     pool = C.Pool(4)
     try:
         c = case.get("case", case)
+        if is_entry_case(c):
+            run_entry_items(ctx, pool, [entry_item_of_case(c, "replay")], 300.0, "op" if c.get("options") else "ep")
+            return
         run_items(ctx, pool, [item_of_case(c, "replay")], 300.0, "p")
         try:
             rs = variant_of(c["reaction"], c.get("variant", {"kind": "identity"}))
